@@ -72,10 +72,16 @@ def run_case(arg):
         if same_shift(r3, est, shape, 1e-6) and not np.allclose(np.fft.ifft2(Fimg).real, a, atol=1e-6):
             bad("C13:numpy:aligned-image-fft-output", f"u={u}: Fourier-space aligned image differs from the reference")
         # max_shift larger than the applied shift does not change the answer
-        ms = float(np.hypot(*np.abs(est)) + 1.5)
-        r4 = cross_correlation_shift(a, b, upsample_factor=u, max_shift=ms)
-        if not same_shift(r4, est, shape, 1e-6):
-            bad("C13:numpy:max_shift", f"u={u} max_shift={ms:.2f}: returned {np.asarray(r4).tolist()}, applied {est.tolist()}")
+        # (tight and loose limits: the limit is a Euclidean distance in pixels, the same along rows and columns)
+        # With the tight limit some NEIGHBOURS of the true peak are masked out, which biases the parabolic / upsampled
+        # refinement by a fraction of a pixel (3e-4 px seen): there the answer is required to within one (upsampled)
+        # pixel only; with the looser limits all eight neighbours are inside and the answer must be exact.
+        for ms, tol4 in ((float(np.hypot(*np.abs(est)) + 0.5), max(1.0 / max(u, 1), 0.5) * 0.999),
+                         (float(np.hypot(*np.abs(est)) + 1.5), 1e-6), (float(max(shape)), 1e-6)):
+            r4 = cross_correlation_shift(a, b, upsample_factor=u, max_shift=ms)
+            if not same_shift(r4, est, shape, tol4):
+                bad("C13:numpy:max_shift", f"u={u} max_shift={ms:.2f}: returned {np.asarray(r4).tolist()}, applied {est.tolist()}")
+                break
         # identical images: zero for every factor; swapping negates
         for uu in ups:
             z = np.asarray(cross_correlation_shift(a, a, upsample_factor=uu), float)
@@ -194,7 +200,7 @@ def check(rep, tier, seed):
                "shift", "sub-pixel claim checked for upsample factors >= 2 with tolerance 1/u (torch: 0.5 px "
                "for u <= 2, its half-pixel stage)", "band-limited images are synthesised by the harness from "
                "model parameters")
-    shapes = [(3, 4), (4, 3)] if quick else [(3, 4), (4, 3), (4, 5), (5, 5), (4, 4)]
+    shapes = [(3, 4), (4, 3), (5, 3), (3, 5)] if quick else [(3, 4), (4, 3), (5, 3), (3, 5), (4, 5), (5, 5), (4, 4), (6, 3)]
     tmp = tempfile.mkdtemp(prefix="c13_")
     try:
         def job(shape, kind):
